@@ -46,6 +46,7 @@ struct vp_mu_ghost {
 	unsigned p_calls;     /* number of (possibly) blocking semaphore waits made by this thread */
 	unsigned cond_evals;  /* number of condition evaluations */
 	int longw_set;   /* this thread set MU_LONG_WAIT */
+	int scan_ctx;    /* harness: the call under proof is the scanning thread's re-acquisition of the spinlock (nsync_mu_unlock_slow_) */
 	int enq_long;    /* last enqueue transition carried MU_LONG_WAIT */
 	uint32_t enq_count;   /* number of enqueue transitions made */
 	int no_wakeup_ctx; /* C06: the release in progress is nsync_mu_unlock_without_wakeup (may leave MU_ALL_FALSE set) */
